@@ -73,12 +73,13 @@ def run_case(case):
             return out.fail('invalid:loss', 'loss recomputed from the model answers is %r' % L)
         if L < f_lo - 1e-7 * (f_unif + 1.0):
             return out.fail('below_optimum', 'loss %r from the model answers is below the certified minimum %r over all non-negative tables (answers are not the marginals of any distribution with this total); T=%d' % (L, f_lo, T))
-        if L > f_unif * (1 + 1e-9) + 1e-12:
+        floor = inf.loss_floor(meas, tot)
+        if L > f_unif * (1 + 1e-9) + floor:
             return out.fail('worse_than_uniform', 'loss %r exceeds the loss %r of the uniform starting point; T=%d' % (L, f_unif, T))
         denom = f_unif - f_hi
-        if denom <= 1e-3 * f_unif or denom <= 1e-12:
+        if denom <= 1e-3 * f_unif or denom <= 1e3 * floor:
             out.classes.append('uniform_near_optimal')
-            e = 0.0 if L - f_hi <= 1e-6 * (f_unif + 1e-12) + 1e-12 else (L - f_hi) / max(denom, 1e-300)
+            e = 0.0 if L - f_hi <= 1e-6 * f_unif + 1e3 * floor else (L - f_hi) / max(denom, 1e-300)
         else:
             e = (L - f_hi) / denom
         excess.append(e)
